@@ -529,7 +529,8 @@ void structure(const Opm::Schedule& sched, const Opm::EclipseState& es, int sim_
         out.key("conns").arr();
         for (const auto& c : w.getConnections())
             out.obj().kv_i("index", c.global_index()).kv_i("i", c.getI()).kv_i("j", c.getJ()).kv_i("k", c.getK())
-                .kv_i("state", (int)c.state()).kv_b("active", es.getInputGrid().cellActive(c.global_index())).end_obj();
+                .kv_i("state", (int)c.state()).kv_b("active", es.getInputGrid().cellActive(c.global_index()))
+                .kv_d("CF", c.CF()).kv_d("Kh", c.Kh()).end_obj();
         out.end_arr();
         out.key("segs").arr();
         if (w.isMultiSegment()) for (const auto& s : w.getSegments()) out.i(s.segmentNumber());
